@@ -155,6 +155,22 @@ def run_scenario(case, schedule):
                                                    world.next_seq(),
                                                    type(ex).__name__))
                             k += 1
+                        elif kind == 'fx':
+                            # a forced write that fails in the caller: the
+                            # packet cannot be serialised.  Nothing of it
+                            # may reach the wire and everybody else's
+                            # packets are written as before
+                            pk = P1.raw_class(0x05)()
+                            pk.data = None
+                            s0 = world.next_seq()
+                            try:
+                                conn.write_packet(pk, force=True)
+                                res['ops'].append((ti, 'fx', -1, s0,
+                                                   world.next_seq(), None))
+                            except Exception as ex:
+                                res['ops'].append((ti, 'fx', -1, s0,
+                                                   world.next_seq(),
+                                                   type(ex).__name__))
                         elif kind == 'qn':
                             for _ in range(op[1]):
                                 pk = P1.raw_class(0x05)()
@@ -439,6 +455,8 @@ SMALL = [
      'mode': 'both'},
     {'programs': [[('q', 8), ('q', 9), ('q', 10), ('d', True), ('rc',)]],
      'mode': 'plain'},
+    {'programs': [[('fx',), ('q', 9), ('q', 10)], [('q', 7), ('f', 12)]],
+     'mode': 'plain'},
     {'programs': [[('f', 8), ('q', 9), ('d', 1), ('rc',)]],
      'mode': 'c64'},
     # another thread's forced writes around a reconnect (whoever waits for
@@ -481,7 +499,8 @@ def t_enumerate(ctx, index, maxpre, limit, shard=(0, 1)):
 
 
 def program_strategy(with_disc):
-    op = st.one_of(st.tuples(st.just('q'), st.sampled_from([0, 8, 62, 63, 64,
+    op = st.one_of(st.just(('fx',)),
+                   st.tuples(st.just('q'), st.sampled_from([0, 8, 62, 63, 64,
                                                             65, 200])),
                    st.tuples(st.just('f'), st.sampled_from([0, 8, 62, 63, 64,
                                                             65, 200])))
